@@ -299,7 +299,10 @@ ex:V2 a sh:NodeShape ; sh:targetSubjectsOf ex:linked ; sh:property [ sh:path ex:
                    "ex:p owl:inverseOf ex:pinv . ex:pinv a owl:ObjectProperty .", "ex:C1 owl:equivalentClass ex:C3 . ex:C3 a owl:Class .", "ex:RedThing a owl:Restriction ; owl:onProperty ex:colour ; owl:hasValue ex:red .",
                    "ex:C2 rdfs:subClassOf [ a owl:Restriction ; owl:onProperty ex:p ; owl:someValuesFrom ex:C0 ] .", "ex:Parent a owl:Restriction ; owl:onProperty ex:child ; owl:minCardinality \"1\"^^xsd:nonNegativeInteger .",
                    "ex:OnlyC a owl:Restriction ; owl:onProperty ex:p ; owl:allValuesFrom ex:C1 .", "ex:colour a owl:ObjectProperty , owl:FunctionalProperty .", "ex:C4 a owl:Class ; owl:disjointWith ex:C0 .",
-                   "ex:p owl:propertyChainAxiom ( ex:q ex:r ) .", "ex:Both a owl:Class ; owl:intersectionOf ( ex:C0 ex:RedThing ) .", "ex:r a owl:TransitiveProperty , owl:SymmetricProperty ."]
+                   "ex:p owl:propertyChainAxiom ( ex:q ex:r ) .", "ex:Both a owl:Class ; owl:intersectionOf ( ex:C0 ex:RedThing ) .", "ex:r a owl:TransitiveProperty , owl:SymmetricProperty .",
+                   # lists in which a member occurs twice (a chain of one property with itself, a union naming a class twice)
+                   "ex:grandparent owl:propertyChainAxiom ( ex:parent ex:parent ) .", "ex:Twice a owl:Class ; owl:unionOf ( ex:C0 ex:C1 ex:C0 ) .",
+                   "ex:ggp owl:propertyChainAxiom ( ex:parent ex:parent ex:parent ) ."]
     for j in range(60 if big else 12):
         chosen = rng.sample(TBOX_AXIOMS, rng.randint(2, len(TBOX_AXIOMS)))
         og = rdflib.Graph().parse(data=TBOX_TTL % "\n".join(chosen), format="turtle")
